@@ -69,7 +69,7 @@ def run(ctx):
     scr = ctx.path("drv", "x")
     r = ctx.run_drv(drv, ["-mode", "parent", "-cases", cases_path, "-out", tp, "-scratch", os.path.dirname(scr), "-seed", str(ctx.seed),
                           "-mut", str(ctx.pick(1, 2)), "-workers", str(ctx.pick(8, 10)), "-reps", str(ctx.pick(1, 2)),
-                          "-maxbad", str(ctx.pick(10, 150)), "-cpums", "1500", "-rejsample", str(ctx.pick(20, 20))],
+                          "-maxbad", str(ctx.pick(10, 40)), "-cpums", "1500", "-rejsample", str(ctx.pick(20, 20))],
                     timeout=ctx.pick(1800, 3600))
     stats = json.loads(r.stdout.strip().splitlines()[-1])
     ctx.extra["driver"] = stats
